@@ -31,6 +31,9 @@ OPS = {
     "ins_ttl": {"op": "insert", "k": 1, "v": B2, "ttlv": 50, "wttl": True},
     "del_auto": {"op": "delete", "k": 1},
     "del_new": {"op": "delete", "k": 1, "auto": False, "tsv": NOW + 2},
+    "insb_auto": {"op": "insert", "k": 1, "v": B2, "bytes": True},          # the Bytes variants have their own update path
+    "insb_new": {"op": "insert", "k": 1, "v": B3, "auto": False, "tsv": NOW + 1, "bytes": True},
+    "insb_ttl": {"op": "insert", "k": 1, "v": B2, "ttlv": 50, "wttl": True, "bytes": True},
     "del_eq": {"op": "delete", "k": 1, "auto": False, "tsv": NOW - 10 * E9},      # equal to the initial generation's
     "ins_eq": {"op": "insert", "k": 1, "v": B3, "auto": False, "tsv": NOW - 10 * E9},
     "get": {"op": "get", "k": 1},
